@@ -214,4 +214,84 @@ theorem packet_unsubscribe_conns (b : B) (hinv : Inv b) (c id : Nat) (topics : L
   rw [packet_unsubscribe b c cn s id topics hc ha hs]
   rfl
 
+/-! ### end of a connection -/
+
+theorem onPublish_conns (b : B) (m : Msg) : (onPublish b m).1.conns = b.conns := by
+  unfold onPublish
+  simp only
+  split
+  · exact (retainStep_frame b m).2.1
+  · exact (fanout_state _ _ _).2.1.trans (retainStep_frame b m).2.1
+
+theorem alive_markDead (b : B) (c : Nat) :
+    ({ b with conns := b.conns.map (fun (x : Conn) => if x.id == c then { x with alive := false } else x) } : B).alive c = false := by
+  unfold B.alive B.getConn
+  simp only
+  induction b.conns with
+  | nil => rfl
+  | cons x rest ih =>
+    simp only [List.map_cons, List.find?_cons]
+    by_cases hx : (x.id == c) = true
+    · simp [hx]
+    · simp only [hx, Bool.false_eq_true, ↓reduceIte]
+      exact ih
+
+/-- after `stop` the connection is not alive -/
+theorem stop_dead (b : B) (c : Nat) : (stop b c).1.alive c = false := by
+  unfold stop
+  split
+  · rename_i hc; unfold B.alive; rw [hc]
+  · rename_i cn hc
+    split
+    · rename_i ha
+      unfold B.alive; rw [hc]; simpa using ha
+    · have h0 := alive_markDead b c
+      have hk : ∀ b' : B, b'.conns = b.conns.map (fun (x : Conn) => if x.id == c then { x with alive := false } else x) →
+          b'.alive c = false := by
+        intro b' hb'
+        exact (alive_congr ({ b with conns := b.conns.map (fun (x : Conn) => if x.id == c then { x with alive := false } else x) } : B)
+          b' hb' c).trans h0
+      simp only
+      split
+      · exact h0
+      · split
+        · split
+          · exact hk _ rfl
+          · simp only
+            split
+            · exact hk _ (by simp only [storeDel_conns, setSess_conns, onPublish_conns])
+            · exact hk _ (by simp only [setSess_conns, onPublish_conns])
+        · simp only
+          split
+          · exact hk _ rfl
+          · exact hk _ rfl
+
+theorem unsubAll_eq_fold (c : Nat) (l : List (Bytes × Nat)) : ∀ ts : MemTopics,
+    unsubAll ts c l = (l.map (·.1)).foldl (fun ts t => (ts.unsubscribe t (some c)).1) ts := by
+  induction l with
+  | nil => intro ts; rfl
+  | cons tq rest ih => intro ts; obtain ⟨t, q⟩ := tq; simp only [unsubAll, List.map_cons, List.foldl_cons, ih]
+
+/-- the subscription trie after `stop` of a live connection with session `s`:
+the entries of `c` under the paths of the session's topics are gone -/
+theorem stop_sroot (b : B) (hinv : Inv b) (c : Nat) (cn : Conn) (s : Sess)
+    (hc : b.getConn c = some cn) (ha : cn.alive = true) (hs : b.getSess cn.sess = some s) :
+    (abs (stop b c).1.topics.sroot).Perm (entriesAfterUnsub c (s.topics.map (·.1)) (abs b.topics.sroot)) := by
+  have hfold := unsubFold_abs c (s.topics.map (·.1)) b.topics hinv.wf
+  rw [← unsubAll_eq_fold] at hfold
+  unfold stop
+  have hs' : ({ b with conns := b.conns.map (fun (x : Conn) => if x.id == c then { x with alive := false } else x) } : B).getSess cn.sess = some s := hs
+  simp only [hc, ha, Bool.not_true, Bool.false_eq_true, ↓reduceIte, hs']
+  split
+  · split
+    · exact hfold
+    · simp only
+      split
+      · simp only [storeDel_topics, setSess_topics, onPublish_topics, (retainStep_frame _ _).1]; exact hfold
+      · simp only [setSess_topics, onPublish_topics, (retainStep_frame _ _).1]; exact hfold
+  · simp only
+    split
+    · exact hfold
+    · exact hfold
+
 end Mqtt.Proofs.Broker
